@@ -40,6 +40,9 @@ S = "fam_stream::"
 SV = "fam_stream::vec_proofs::"
 G = "fam_group::"
 GEN3 = ["C01", "C03", "C20"]
+# finish() drops the combinator after the last round and asserts the ownership conditions, so
+# every nostd/alloc schedule harness also decides C02 for "dropped after completion / still pending"
+OWN = ["C02"]
 
 # ------------------------------------------------------------------------------------------
 # futures (nostd): (name, children, rounds, measured cost under load [s], in quick tier?)
@@ -64,7 +67,7 @@ for prop, lst in fut.items():
         qq = [prop] if q else []
         if n in QUICK_GENERIC:
             qq += GEN3
-        add(F + n, "nostd", prop, quick=qq, thorough=[prop] + GEN3, cost=cost,
+        add(F + n, "nostd", prop, quick=qq, thorough=[prop] + GEN3 + OWN, cost=cost,
             children=N, rounds=R, container=n.split("_")[1])
 # drop harnesses (primary C02; they also decide their family's "dropped, never returned" clauses)
 for (n, fam, cost) in [("join_arr2_r3_drop", "C04", 65), ("join_tup2_r3_drop", "C04", 16),
@@ -81,8 +84,8 @@ for (n, prop, cost, q) in [("join_vec0_r1", "C04", 14, 1), ("join_vec2_r3", "C04
                            ("race_vec2_r4", "C06", 15, 1), ("race_vec3_r5", "C06", 32, 1),
                            ("raceok_vec0_r1", "C07", 7, 1), ("raceok_vec2_r3", "C07", 150, 1),
                            ("raceok_vec2_r4", "C07", 279, 0), ("raceok_vec3_r5", "C07", 480, 0)]:
-    add(FV + n, "alloc", prop, quick=[prop] if q else [], thorough=[prop] + GEN3, cost=cost, container="Vec")
-for (n, fam, cost, q) in [("join_vec2_r3_drop", "C04", 258, 0), ("raceok_vec2_r3_drop", "C07", 168, 1)]:
+    add(FV + n, "alloc", prop, quick=([prop] if q else []) + (OWN if n == "tryjoin_vec2_r3" else []), thorough=[prop] + GEN3 + OWN, cost=cost, container="Vec")
+for (n, fam, cost, q) in [("join_vec2_r3_drop", "C04", 258, 0), ("raceok_vec2_r3_drop", "C07", 168, 1), ("tryjoin_vec2_r3_drop", "C05", 300, 0)]:
     add(FV + n, "alloc", "C02", quick=["C02"] if q else [], thorough=["C02", fam], cost=cost, container="Vec",
         drop_point="symbolic 0..=3 polls")
 
@@ -106,7 +109,7 @@ for prop, lst in st.items():
         qq = [prop] if q else []
         if n in QUICK_GENERIC_S:
             qq += gen
-        add(S + n, "nostd", prop, quick=qq, thorough=[prop] + gen, cost=cost)
+        add(S + n, "nostd", prop, quick=qq, thorough=[prop] + gen + OWN, cost=cost)
 for (n, fam, cost) in [("merge_arr2_k2_r4_drop", "C08", 37), ("merge_tup2_k2_r4_drop", "C08", 25),
                        ("zip_arr2_k2_r4_drop", "C09", 65), ("zip_tup2_k2_r4_drop", "C09", 51),
                        ("chain_arr2_k2_r4_drop", "C10", 108)]:
@@ -116,7 +119,7 @@ for (n, prop, cost, q) in [("merge_vec2_k2_r5", "C08", 62, 1), ("merge_vec0_r1",
                            ("zip_vec2_k2_r5", "C09", 146, 1), ("zip_vec2_k1_r3", "C09", 60, 0),
                            ("chain_vec2_k1_r4", "C10", 60, 1), ("chain_vec3_k1_r3", "C10", 90, 1),
                            ("chain_vec0_r1", "C10", 8, 1), ("chain_vec2_k2_r6", "C10", 312, 0)]:
-    add(SV + n, "alloc", prop, quick=[prop] if q else [], thorough=[prop, "C01", "C03"], cost=cost, container="Vec")
+    add(SV + n, "alloc", prop, quick=[prop] if q else [], thorough=[prop, "C01", "C03"] + OWN, cost=cost, container="Vec")
 for (n, fam, cost) in [("merge_vec2_k2_r4_drop", "C08", 58), ("zip_vec2_k2_r4_drop", "C09", 115)]:
     add(SV + n, "alloc", "C02", quick=["C02", fam], thorough=["C02", fam], cost=cost, container="Vec")
 # wait_until
@@ -187,7 +190,27 @@ for (n, cost, hist) in [("fgroup_micro2", 10, "insert, poll"), ("fgroup_micro3",
                         ("fgroup_grow_live", 25, "insert, poll (pending), insert (capacity grows), poll, poll")]:
     add(G + n, "alloc", "C11", quick=["C11"] + (["C03", "C20", "C02"] if n in ("fgroup_ins3_poll3", "fgroup_remove_mid") else []),
         thorough=GF, cost=cost, history=hist, members="<= 3", member_behaviour="symbolic, no wake-ups from inside polls (alloc: wakers carry no readiness)")
+# histories added in round 3 (several removals, extend, polling an empty group, a member ending and a
+# later one yielding in the same poll followed by slot reuse)
+for (n, cost, q, hist) in [("fgroup_remove_two", 40, 1, "insert, insert, remove(0), remove(1), poll"),
+                           ("fgroup_remove_two_any", 200, 0, "insert x3, remove(any), remove(any), poll, poll"),
+                           ("fgroup_keyed_remove_two_any", 200, 0, "keyed: insert x3, remove(any), remove(any), poll, poll"),
+                           ("fgroup_remove_after_yield", 60, 1, "insert, insert, poll (member 0 resolves), remove(1), poll"),
+                           ("fgroup_empty_poll_then_use", 40, 1, "poll (empty: None), insert, poll, poll"),
+                           ("fgroup_extend2", 60, 1, "extend(2 futures), poll x3"),
+                           ("fgroup_insert_extend2", 100, 0, "insert, extend(2 futures), poll x3")]:
+    add(G + n, "alloc", "C11", quick=["C11"] if q else [], thorough=GF, cost=cost, history=hist, members="<= 3",
+        member_behaviour="symbolic where not scripted, no wake-ups from inside polls")
 GS = ["C12", "C03", "C20", "C02"]
+for (n, cost, q, hist) in [("sgroup_remove_two", 40, 1, "insert, insert, remove(0), remove(1), poll"),
+                           ("sgroup_remove_two_any", 200, 0, "insert x3, remove(any), remove(any), poll, poll"),
+                           ("sgroup_remove_after_end", 60, 1, "insert, insert, poll (member 0 ends), remove(1), poll"),
+                           ("sgroup_empty_poll_then_use", 40, 1, "poll (empty: None), insert, poll, poll"),
+                           ("sgroup_end_and_item_same_poll", 40, 1, "insert, insert, poll (member 0 ends, member 1 yields), poll"),
+                           ("sgroup_end_item_then_reuse", 80, 1, "insert, insert, poll (0 ends, 1 yields), insert (slot reused), poll, poll"),
+                           ("sgroup_keyed_end_item_then_reuse", 80, 0, "keyed: same")]:
+    add(G + n, "alloc", "C12", quick=["C12"] if q else [], thorough=GS, cost=cost, history=hist, members="<= 3",
+        member_behaviour="symbolic where not scripted, no wake-ups from inside polls")
 for (n, cost, hist) in [("sgroup_micro2", 10, "insert, poll"), ("sgroup_keyed_micro2", 10, "keyed: insert, poll"),
                         ("sgroup_rem_then_poll", 12, "insert, insert, remove(first), poll"),
                         ("sgroup_pending_then_any", 12, "insert, poll (pending), poll"),
@@ -225,6 +248,8 @@ for (n, cost, mem, q, fam, hist) in [
         ("fgroup_std_remove", 280, 9, 0, "C11", "insert, insert, poll (member 0 pending), remove(0), poll"),
         ("fgroup_std_grow_live", 600, 34, 0, "C11", "insert, poll (pending), insert (capacity grows), poll"),
         ("fgroup_std_rsv_live", 400, 26, 0, "C11", "insert, poll (pending), reserve(1), poll"),
+        ("fgroup_std_reuse_after_remove", 300, 12, 0, "C11", "insert, poll (pending, not woken), remove, insert (slot reused), poll"),
+        ("sgroup_std_reuse_after_remove", 300, 12, 0, "C12", "insert, poll (pending, not woken), remove, insert (slot reused), poll"),
         ("sgroup_std_micro3", 80, 5, 1, "C12", "insert, poll, poll"),
         ("sgroup_std_item_then_any", 61, 4, 1, "C12", "insert, poll (item), poll"),
         ("sgroup_std_two", 900, 36, 0, "C12", "insert, insert, poll, poll"),
@@ -232,6 +257,22 @@ for (n, cost, mem, q, fam, hist) in [
     props = ["C01", "C16", fam, "C03", "C20"]
     add(GS_ + n, "std", "C16", quick=props if q else [], thorough=props, cost=cost, mem_gb=mem, timeout=3000, history=hist,
         member_behaviour="symbolic results; wake-ups between operations only (fire phase), none from inside polls")
+
+# nests of combinators (leaves are the scripted children; family oracles are stated over leaves)
+NE = "nest::"
+for (n, prop, cost, q) in [("nest_join_tt_r3", "C04", 40, 1), ("nest_join_tt_r4", "C04", 80, 0), ("nest_join_ta_r3", "C04", 60, 1),
+                           ("nest_join_a1t_r3", "C04", 30, 1), ("nest_tryjoin_tt_r3", "C05", 60, 1),
+                           ("nest_merge_tt_k1_r4", "C08", 80, 1), ("nest_merge_ta_k1_r4", "C08", 80, 0),
+                           ("nest_merge_a1t_k2_r5", "C08", 60, 1)]:
+    add(NE + n, "nostd", prop, quick=([prop, "C01", "C03", "C20"] if q else []), thorough=[prop, "C01", "C03", "C20", "C02"], cost=cost,
+        nesting="2 levels", leaves=2 if "a1t" in n else 3)
+for (n, prop, cost) in [("nest_join_tt_r3_drop", "C04", 40), ("nest_tryjoin_tt_r3_drop", "C05", 60), ("nest_merge_tt_k1_r3_drop", "C08", 60)]:
+    add(NE + n, "nostd", "C02", quick=["C02"], thorough=["C02", "C03", prop], cost=cost, nesting="2 levels", drop_point="symbolic 0..=3 polls")
+
+# FromStream (`stream.co()`): the real driver between a scripted stream and the harness sink
+add(C + "co_from_stream_k0_p2", "alloc", "C03", quick=["C03", "C15"], cost=110, mem_gb=4, source="scripted stream, 0 items", driver_polls=2)
+add(C + "co_from_stream_k1_p3", "alloc", "C03", quick=["C03", "C15"], cost=110, mem_gb=5, source="scripted stream, <= 1 item", driver_polls=3)
+add(C + "co_from_stream_k2_p5", "alloc", "C03", thorough=["C03", "C15"], cost=600, mem_gb=20, timeout=3000, source="scripted stream, <= 2 items", driver_polls=5)
 
 ASSUMPTIONS = [
     "bounded: every claim holds only for the children / rounds / items / history lengths listed per harness (unwinding assertions are on, so a bound that is too small is reported, not silently truncated)",
